@@ -15,15 +15,15 @@ type Op uint8
 const (
 	OpConst Op = iota
 	OpVar
-	OpNot  // bool
-	OpAnd  // bool
-	OpOr   // bool
-	OpIte  // cond, a, b (a,b bool or bv)
-	OpEq   // a == b (bool or bv operands) -> bool
-	OpUlt  // -> bool
-	OpUle  // -> bool
-	OpSlt  // -> bool
-	OpSle  // -> bool
+	OpNot // bool
+	OpAnd // bool
+	OpOr  // bool
+	OpIte // cond, a, b (a,b bool or bv)
+	OpEq  // a == b (bool or bv operands) -> bool
+	OpUlt // -> bool
+	OpUle // -> bool
+	OpSlt // -> bool
+	OpSle // -> bool
 	OpAdd
 	OpSub
 	OpMul
